@@ -295,6 +295,12 @@ fn programs(depth: usize, offset: usize) -> Vec<(String, Vec<(String, String)>)>
         ("export * cycle between two modules, a name that does not exist", vec![("a.ts", "export * from \"./b\";\n"), ("b.ts", "export * from \"./a\";\n"), ("entry.ts", "import { Nope } from \"./a\";\nimport { v } from \"./b\";\nparse.buildParsers<{ N: Nope, V: typeof v }>();\n")]),
         ("union whose members share a discriminator value", vec![("entry.ts", "type X = { a: \"x\" | \"y\" } | { a: \"x\", c: boolean };\nparse.buildParsers<{ X: X }>();\n")]),
         ("union of three members with pairwise overlapping discriminator values", vec![("entry.ts", "type X = { a: \"x\" | \"y\", b: string } | { a: \"x\" | \"z\", c: boolean } | { a: \"z\" | \"y\" };\ntype Y = { k: \"p\" | \"q\", v: X } | { k: \"q\" };\nparse.buildParsers<{ X: X, Y: Y }>();\n")]),
+        ("enum member in value position, initialised by a constant of the (longer) enum module", vec![("e.ts", "// padding padding padding padding padding padding padding\n// padding padding padding padding padding padding padding\n// padding padding padding padding padding padding padding\n// padding padding padding padding padding padding padding\n// padding padding padding padding padding padding padding\n// padding padding padding padding padding padding padding\nconst BASE = \"base\";\nexport enum E { A = BASE, B = \"b\" }\n"), ("entry.ts", "import { E } from \"./e\";\nconst x = { a: E.A } as const;\nparse.buildParsers<{ X: typeof x }>();\n")]),
+        ("enum member in value position, initialised by a regex in the (longer) enum module", vec![("e.ts", "// padding padding padding padding padding padding padding\n// padding padding padding padding padding padding padding\n// padding padding padding padding padding padding padding\n// padding padding padding padding padding padding padding\n// padding padding padding padding padding padding padding\n// padding padding padding padding padding padding padding\nexport enum E { A = /x/, B = \"b\" }\n"), ("entry.ts", "import { E } from \"./e\";\nconst x = { a: E.A } as const;\nparse.buildParsers<{ X: typeof x }>();\n")]),
+        ("alias-only cycle as the check type of a conditional type", vec![("entry.ts", "type A = B;\ntype B = A;\ntype X = A extends string ? \"y\" : \"n\";\nparse.buildParsers<{ X: X }>();\n")]),
+        ("self alias under Exclude", vec![("entry.ts", "type A = A;\ntype X = Exclude<A | \"a\", \"a\">;\nparse.buildParsers<{ X: X }>();\n")]),
+        ("alias-only cycle over two modules inside a conditional type", vec![("a.ts", "import { B } from \"./b\";\nexport type A = B;\n"), ("b.ts", "import { A } from \"./a\";\nexport type B = A;\n"), ("entry.ts", "import { A } from \"./a\";\ntype X = { v: A } extends { v: string } ? 1 : 2;\nparse.buildParsers<{ X: X }>();\n")]),
+        ("alias of a recursive object in a conditional type", vec![("entry.ts", "type A = B;\ntype B = { next: A | null };\ntype X = A extends { next: any } ? \"y\" : \"n\";\nparse.buildParsers<{ X: X }>();\n")]),
         ("four files export a type of the same name at different depths", vec![("a/t.ts", "export type T = { a: string };\n"), ("b/a/t.ts", "export type T = { b: string };\n"), ("c/b/a/t.ts", "export type T = { c: string };\n"), ("t.ts", "export type T = { d: string };\n"),
             ("entry.ts", "import { T as T1 } from \"./a/t\";\nimport { T as T2 } from \"./b/a/t\";\nimport { T as T3 } from \"./c/b/a/t\";\nimport { T as T4 } from \"./t\";\nparse.buildParsers<{ T1: T1, T2: T2, T3: T3, T4: T4 }>();\n")]),
     ];
